@@ -1162,7 +1162,7 @@ def deserialize_dimension(
     return _core.SymbolicDim(None), denotation
 
 
-@_capture_errors(lambda proto, base_path: proto.name)
+@_capture_errors(lambda proto, base_path="": proto.name)
 def deserialize_tensor(
     proto: onnx.TensorProto, base_path: str | os.PathLike = ""
 ) -> _protocols.TensorProtocol:
